@@ -45,11 +45,19 @@ class TagAbs:
             self.v_tag = None
 
     def run(self):
-        st = St()
-        if self.mode == 'write':
-            st.env[self.v_tag] = ('vec', (('b', 3), ('b', 2), ('b', 1), ('b', 0)))
-        st.env[self.v_str] = ('ptr', 0)
-        self._go(self.fn.entry, st, {}, {})
+        uses_strlen = self.mode == 'read' and any(e['k'] == 'CallExpr' and (e.get('fq') or '').split('::')[-1] == 'strlen' for _, e in self.fn.elements())
+        # strlen(str): the analysis is repeated under each assumption strlen == 0, 1, 2, 3 and strlen >= 4 (which fixes which
+        # offsets are known to be non-NUL)
+        for k in (range(5) if uses_strlen else (None,)):
+            st = St()
+            self.len_assume = k
+            if self.mode == 'write':
+                st.env[self.v_tag] = ('vec', (('b', 3), ('b', 2), ('b', 1), ('b', 0)))
+            st.env[self.v_str] = ('ptr', 0)
+            if k is not None:
+                st.nz = set(range(k))
+                st.end = k if k < 4 else None
+            self._go(self.fn.entry, st, {}, {})
         return self.paths
 
     def _go(self, b, st, val, visits):
@@ -147,7 +155,7 @@ class TagAbs:
             val[i] = ('int', e['v'])
             return
         if k == 'DeclRefExpr':
-            val[i] = ('lv', e.get('vid'))
+            val[i] = ('int', e['v']) if (e.get('v') is not None and e.get('vid') is None) else ('lv', e.get('vid'))
             return
         if k in ('ParenExpr', 'ExprWithCleanups'):
             val[i] = V(c[0])
@@ -213,8 +221,18 @@ class TagAbs:
                 return
             val[i] = None
             return
+        if k == 'ConditionalOperator' and len(c) == 3:
+            # only the arm evaluated on this path has a value
+            arms = [x for x in (c[1], c[2]) if isinstance(x, int) and x in val]
+            v_ = val.get(arms[-1]) if len(arms) >= 1 else None
+            if v_ and v_[0] == 'lv':
+                v_ = st.env.get(v_[1])
+            val[i] = v_
+            return
         if k == 'ArraySubscriptExpr':
             p, ix = V(c[0]), V(c[1])
+            if ix and ix[0] == 'lv':
+                ix = st.env.get(ix[1])
             if p and p[0] == 'lv':
                 p = st.env.get(p[1])
             if p and p[0] == 'ptr' and ix and ix[0] == 'int':
@@ -256,6 +274,29 @@ class TagAbs:
             if st.ret and st.ret[0] == 'lv':
                 st.ret = st.env.get(st.ret[1])
             return 'ret'
+        if k == 'CallExpr' and (e.get('fq') or '').split('::')[-1] == 'strlen' and getattr(self, 'len_assume', None) is not None:
+            a0 = V(e['args'][0]) if e.get('args') else None
+            if a0 and a0[0] == 'lv':
+                a0 = st.env.get(a0[1])
+            if a0 == ('ptr', 0):
+                val[i] = ('int', self.len_assume) if self.len_assume < 4 else ('len4',)
+                return
+        if k == 'CallExpr' and (e.get('fq') or '').split('::')[-1] in ('min', 'max') and len(e.get('args') or []) == 2:
+            a_, b_ = V(e['args'][0]), V(e['args'][1])
+            for x_ in ('a_', 'b_'):
+                pass
+            if a_ and a_[0] == 'lv':
+                a_ = st.env.get(a_[1])
+            if b_ and b_[0] == 'lv':
+                b_ = st.env.get(b_[1])
+            isn = (e['fq'].split('::')[-1] == 'min')
+            if a_ and b_ and a_[0] == 'int' and b_[0] == 'int':
+                val[i] = ('int', min(a_[1], b_[1]) if isn else max(a_[1], b_[1]))
+                return
+            for p_, q_ in ((a_, b_), (b_, a_)):
+                if p_ == ('len4',) and q_ and q_[0] == 'int' and q_[1] <= 4:
+                    val[i] = ('int', q_[1]) if isn else ('len4',)
+                    return
         if k in ('CallExpr',):
             raise AnalysisBroken('%s: call to %s inside a loop-form tag function (unknown shape)' % (fn.q, e.get('fq')))
         val[i] = None
@@ -280,6 +321,24 @@ class TagAbs:
 
     def _arith(self, op, a, b, e, st):
         fn = self.fn
+        # strlen(str) >= 4, compared with a small constant
+        for x_, y_, flip in ((a, b, False), (b, a, True)):
+            if x_ == ('len4',) and y_ and y_[0] == 'int' and op in ('<', '<=', '>', '>=', '==', '!='):
+                o = {'<': '>', '>': '<', '<=': '>=', '>=': '<='}.get(op, op) if flip else op
+                c_ = y_[1]
+                if o == '<' and c_ <= 4:
+                    return ('bool', False)
+                if o == '<=' and c_ < 4:
+                    return ('bool', False)
+                if o == '>=' and c_ <= 4:
+                    return ('bool', True)
+                if o == '>' and c_ < 4:
+                    return ('bool', True)
+                if o == '==' and c_ < 4:
+                    return ('bool', False)
+                if o == '!=' and c_ < 4:
+                    return ('bool', True)
+                raise AnalysisBroken('%s: strlen(str) compared with %d: undecided for strings of 4 or more characters' % (fn.q, c_))
         if a and b and a[0] == 'int' and b[0] == 'int':
             f = {'+': lambda x, y: x + y, '-': lambda x, y: x - y, '*': lambda x, y: x * y, '<<': lambda x, y: x << y, '>>': lambda x, y: x >> y,
                  '&': lambda x, y: x & y, '|': lambda x, y: x | y,
